@@ -501,7 +501,7 @@ def evaluate_weighted_residuals(
     )
     G = evaluate_eta_gradient(model, etas=etas, parameters=parameters, dataset=dataset)
     H = evaluate_epsilon_gradient(model, etas=etas, parameters=parameters, dataset=dataset)
-    F = evaluate_population_prediction(model)
+    F = evaluate_population_prediction(model, parameters=parameters, dataset=dataset)
     index = df[model.datainfo.id_column.name]
     G.index = index
     H.index = index
